@@ -15,6 +15,7 @@ import random
 from harness import core, lex
 
 PROP = "C08"
+TRACE_MODULES = ["Trace_C08"]
 NOOBS = dict(op="", items=[], ports=[], sport=[], line="")
 
 
